@@ -37,7 +37,15 @@ ByzProposals ==
       b \in Byz, r \in {x \in Rounds : Proposer(x) \in Byz \/ W("ProposalAnySigner")},
       v \in AllValues, p \in -1..(MaxRound - 1)}
 ByzBlocks == {[t |-> "block", src |-> "-", r |-> -1, v |-> v, pol |-> -2] : v \in ByzValues}
-ByzMsgs == ByzVotes \cup ByzProposals \cup ByzBlocks
+\* +2/3 claims (VoteSetMaj23) of the faulty validators, true or not: they make a node record conflicting votes for the
+\* claimed block.  (Claims of correct nodes are true and only ever add votes that exist; idealised gossip sends them in
+\* TMConsensusGST.)  Reduction: a claim is delivered only where a faulty validator already has another vote in that vote
+\* set, i.e. where it can make a difference; before that it commutes with everything.
+ByzClaims == [t : {"claim_prevote", "claim_precommit"}, src : Byz, r : Rounds, v : AllValues, pol : {-2}]
+ClaimUseful(s, m) ==
+  LET vs == IF m.t = "claim_prevote" THEN s.pv[m.r] ELSE s.pc[m.r]
+  IN \E b \in Byz : vs.votes[b] # None /\ vs.votes[b] # m.v
+ByzMsgs == ByzVotes \cup ByzProposals \cup ByzBlocks \cup ByzClaims
 
 \* messages a node pushes on its own queue for the outputs of a step
 \* (decideProposal: the proposal, then the block parts; signAddVote: the vote)
@@ -74,6 +82,7 @@ Deliver(n, m) ==
      /\ s2 # rs[n]
      /\ (LazyByz /\ m \in ByzVotes) =>
            s2 # AddVote(rs[n], m.t, m.r, m.src, m.v, peer).s
+     /\ (m \in ByzClaims) => ClaimUseful(rs[n], m)
      /\ Install(n, s2)
      /\ inq' = [inq EXCEPT ![n] = inq[n] \o OutToMsgs(n, s2.out)]
      /\ soup' = soup
@@ -198,6 +207,17 @@ CorridorStage1W ==
   /\ \A n \in Corr : rs[n].round <= 1
   /\ (act.name = "Deliver" /\ act.m \in ByzMsgs) => (act.m \in ByzVotes /\ act.m.r = 0 /\ act.m.v \in CorrValues \cup {Nil})
   /\ act.name = "Timeout" => act.k \in {"NewHeight", "PrecommitWait"}
+\* a node is left without the round-0 proposal, is moved to round 1 (faulty proposer) by +2/3-any precommits and only then
+\* learns the round-0 commit; the faulty proposer of round 1 then sends its proposal (ProposalResetsParts)
+CorridorStuck ==
+  LET X == CHOOSE n \in Corr : n # Proposer(0) IN
+  /\ \A n \in Corr : rs[n].round <= 1
+  /\ (act.name = "Deliver" /\ act.m \in ByzVotes) => (act.m.r = 0 /\ act.m.v \in CorrValues)
+  /\ (act.name = "Deliver" /\ act.m \in ByzProposals) => (act.m.r = 1 /\ act.n = X)
+  /\ (act.name = "Deliver" /\ act.m \in ByzClaims) => FALSE
+  /\ (act.name = "Deliver" /\ act.m.t = "proposal" /\ act.m.r = 0) => act.n # X
+  /\ act.name = "Timeout" => (act.k \in {"NewHeight", "PrecommitWait"} \/ (act.k = "Propose" /\ act.n = X))
+  /\ (act.name = "Timeout" /\ act.k = "PrecommitWait") => act.n = X
 CorridorStage2 ==
   /\ \A n \in Corr : rs[n].round <= 1
   /\ (act.name = "Deliver" /\ act.m \in ByzVotes) => (act.m.v \in ByzValues /\ act.m.r = 1)
